@@ -521,8 +521,8 @@ class Coder(object):
         :type descriptor: DelayedReplicationDescriptor
         """
         # TODO: delayed repetition descriptor 031011, 031012
-        if descriptor.id in (31011, 31012):
-            raise NotImplementedError('delayed repetition descriptor')
+        if descriptor.factor.id in (31011, 31012):
+            raise PyBufrKitError('Delayed repetition ({} {}) is not implemented'.format(descriptor, descriptor.factor))
 
         log.debug('Processing {}'.format(descriptor.factor))
         self.process_element_descriptor(state, bit_operator, descriptor.factor)
